@@ -88,6 +88,7 @@ __v2di __builtin_ia32_extract128i256(__v4di a, int imm) {
     __v2di r; r[0] = a[(imm & 1) * 2]; r[1] = a[(imm & 1) * 2 + 1];
     return r;
 }
+__v4si __builtin_ia32_vextractf128_si256(__v8si a, int imm) { __v4si r; for (int i = 0; i < 4; i++) r[i] = a[(imm & 1) * 4 + i]; return r; }
 __v4di __builtin_ia32_insert128i256(__v4di a, __v2di b, int imm) {
     __v4di r = a; r[(imm & 1) * 2] = b[0]; r[(imm & 1) * 2 + 1] = b[1];
     return r;
